@@ -51,7 +51,8 @@ Why == IF Ev.op = "free" THEN (IF Ev.live # 0 THEN {"leak"} ELSE {}) \cup (IF ~E
        ELSE (IF FailedCleanly THEN {}
              ELSE (IF ~ResultOk THEN {IF Ev.inj > 0 THEN "enomem" ELSE "result"} ELSE {})
                   \cup (IF Matching = {} THEN {IF Ev.inj > 0 THEN "enomem" ELSE "state"} ELSE {}))
-            \cup (IF ~WF(Real(Ev)) THEN {"image"}
+            \cup (IF ~Sane(Real(Ev)) THEN {"image", "insane"}          \* links or counts outside the table: the model cannot even follow
+                  ELSE IF ~WellFormed(Real(Ev)) THEN {"image"}
                   ELSE IF Matching # {} /\ Abs(Real(Ev)) \notin Matching THEN {"image"} ELSE {})
             \cup (IF <<Ev.rsize, Ev.rgets, Ev.rwalk>> # <<Ev.size, Ev.gets, Ev.walk>> THEN {"reloc"} ELSE {})
             \cup (IF ~Ev.guard_ok THEN {"guard"} ELSE {})
@@ -72,11 +73,11 @@ TNext == /\ l <= NT /\ l' = l + 1 /\ lastOp' = lastOp
          /\ IF Ev.op = "reset" THEN st' = EmptySt /\ map' = <<>> /\ skipping' = FALSE /\ UNCHANGED <<nconf, ncmp>>
             ELSE IF skipping THEN UNCHANGED <<st, map, skipping, nconf, ncmp>>
             ELSE IF Ev.op \in {"crash", "timeout"} THEN
-                 Reject({Ev.op, "result"}, "no action admits this event") /\ skipping' = TRUE /\ UNCHANGED <<st, map, nconf, ncmp>>
+                 Reject({Ev.op, "result", "image"}, "no action admits this event") /\ skipping' = TRUE /\ UNCHANGED <<st, map, nconf, ncmp>>
             ELSE IF Ev.op = "free" THEN
                  /\ UNCHANGED <<st, map, nconf, ncmp>>
                  /\ IF Why \cap Owned = {} THEN UNCHANGED skipping ELSE Reject(Why, <<>>) /\ skipping' = TRUE
-            ELSE IF Why \cap (Owned \cup {"result", "state", "enomem", "image"}) = {} THEN
+            ELSE IF Why \cap (Owned \cup {"result", "state", "enomem", "insane"}) = {} THEN
                  /\ UNCHANGED skipping
                  /\ map' = (IF FailedCleanly THEN map ELSE CHOOSE m \in Matching : TRUE)
                  /\ st' = Real(Ev)
